@@ -134,8 +134,8 @@ def run(prog, chk):
         for bl in b.blocks:
             for s in bl.stmts:
                 if s.kind == 'a' and s.rv.kind == 'agg' and s.rv.adt == ITEM:
-                    if "Clone@core" in s.exp:
-                        continue  # derived Clone copies the flag
+                    if "Clone@core" in s.exp or "@serde" in s.exp:
+                        continue  # derived Clone copies the flag; serde Deserialize restores a serialized value
                     if "Default@core" in s.exp:
                         users = prog.callers_of("<%s as core::default::Default>::default" % ITEM, crates=SHIPPED)
                         if users:
